@@ -81,6 +81,28 @@ fn main() {
 					Err(_) => "err".to_string(),
 				};
 				let _ = writeln!(out, "{}\tdec{}\t{}\t{}\t{}\t{}\t{}", e.name, i, real_s, family, model_s, bytes.len(), hex(&bytes[..bytes.len().min(24)]));
+				// limited decoding: the tracked usage and the accept/reject decisions under memory and depth limits must
+				// not depend on the configuration either (no reference here: the line is compared across configurations)
+				if let (Some(mem), Some(depth)) = (e.mem, e.depth) {
+					let lim = std::panic::catch_unwind(|| {
+						let u = mem(&bytes, usize::MAX);
+						let used = u.used;
+						let at = |l: usize| mem(&bytes, l).result.is_ok();
+						let d = |l: u32| depth(&bytes, l).0.is_ok();
+						format!(
+							"U={used}:{}{}{}:d{}{}{}{}",
+							at(used / 2) as u8,
+							at(used.saturating_sub(1)) as u8,
+							at(used.saturating_add(1)) as u8,
+							d(0) as u8,
+							d(1) as u8,
+							d(2) as u8,
+							d(3) as u8
+						)
+					})
+					.unwrap_or_else(|_| "PANIC".to_string());
+					let _ = writeln!(out, "{}\tlim{}\t{}\tlimits\t{}\t{}\t{}", e.name, i, lim, lim, bytes.len(), hex(&bytes[..bytes.len().min(24)]));
+				}
 			}
 		}
 	}
